@@ -190,6 +190,7 @@ type vhpxReqOut struct {
 	BurstStatus     []int        `json:"burst_status,omitempty"`
 	BurstStamped    []bool       `json:"burst_stamped,omitempty"`
 	BurstMs         []int64      `json:"burst_ms,omitempty"`
+	ResetHits       int          `json:"reset_hits"` // times the request was received in full by a node that reset the connection instead of answering
 }
 
 type vhpxClusterOut struct {
@@ -312,6 +313,7 @@ type vhpxCluster struct {
 
 	mu        sync.Mutex
 	known     map[string]bool
+	resetHits map[string]int
 	clientTLS *tls.Config
 	bursts    map[string]int
 	specs     map[string]*vhpxRespSpec
@@ -755,6 +757,36 @@ func (u *vhpxUpstream) handleHTTP(conn net.Conn, br *bufio.Reader) bool {
 
 
 // vhpxDead accepts and immediately closes every connection.
+// serveReset: a node that receives the whole forwarded request and then dies: the connection is reset before any answer. The
+// request WAS delivered (counted per request tag); it must not be sent anywhere else as well.
+func (c *vhpxCluster) serveReset(ln net.Listener) {
+	defer c.guard("reset listener")
+	for {
+		conn, err := ln.Accept()
+		if err != nil {
+			return
+		}
+		go func(conn net.Conn) {
+			defer c.guard("reset conn")
+			_ = conn.SetDeadline(time.Now().Add(5 * time.Second))
+			br := bufio.NewReader(conn)
+			if req, err := http.ReadRequest(br); err == nil {
+				_, _ = io.Copy(io.Discard, req.Body)
+				c.mu.Lock()
+				if c.resetHits == nil {
+					c.resetHits = map[string]int{}
+				}
+				c.resetHits[req.Header.Get(vhpxReqHeader)]++
+				c.mu.Unlock()
+			}
+			if tc, ok := conn.(*net.TCPConn); ok {
+				_ = tc.SetLinger(0)
+			}
+			_ = conn.Close()
+		}(conn)
+	}
+}
+
 func (c *vhpxCluster) serveDead(ln net.Listener) {
 	defer c.guard("dead accept")
 	for {
@@ -796,6 +828,8 @@ func (c *vhpxCluster) run() {
 
 	deadLn := c.listen()
 	go c.serveDead(deadLn)
+	resetLn := c.listen()
+	go c.serveReset(resetLn)
 
 	states := make([]*cluster.State, n)
 	mgrs := make([]*upstream.LoadBalancedManager, n)
@@ -878,6 +912,8 @@ func (c *vhpxCluster) run() {
 				addr = "127.0.0.1:1"
 			case v.Addr == "dead":
 				addr = deadLn.Addr().String()
+			case v.Addr == "reset":
+				addr = resetLn.Addr().String()
 			case strings.HasPrefix(v.Addr, "node:"):
 				k, err := strconv.Atoi(strings.TrimPrefix(v.Addr, "node:"))
 				if err != nil || k < 0 || k >= n {
@@ -983,6 +1019,7 @@ func (c *vhpxCluster) run() {
 			copy(out.Inv, v)
 		}
 		out.UpReqs = append(out.UpReqs, c.recs[key]...)
+		out.ResetHits = c.resetHits[key]
 		out.InvUnattributed, c.invUn = c.invUn, 0
 		out.UpUnattributed, c.recUn = c.recUn, 0
 		c.done = append(c.done, out)
